@@ -569,13 +569,26 @@ Proof.
   intro m. rewrite H1, filter_In. split; intros [A B]; (split; [exact A | apply legal_specb_spec; exact B]).
 Qed.
 
-(** non-vacuity of the hypotheses of C01_legal_exact: the start position with the engine's own
-    Zobrist keys (regenerated) is well-formed and consistent, and removeIllegal yields 20 moves *)
-From Texel Require Import Chess.PositionInst Chess.PositionExamples.
+(** non-vacuity of the hypotheses of C01_legal_exact / C01_tryMove: the start position with its
+    material fields filled in is well-formed and consistent (for the all-zero key tables, which
+    satisfy the EMPTY-row-zero hypothesis), and removeIllegal yields its 20 legal moves *)
+Definition startC : position :=
+  let q := startPosition in
+  set_bMtrlPawns (set_wMtrlPawns (set_bMtrl (set_wMtrl (set_matId q (matIdOf (squares q)))
+    (mtrlOf isWhitePiece (squares q) - kV)%Z) (mtrlOf isBlackPiece (squares q) - kV)%Z)
+    (mtrlOf (N.eqb WPAWN) (squares q))) (mtrlOf (N.eqb BPAWN) (squares q)).
+
 Example legal_exact_start :
-  emptyKeysZero zk0 /\ WF startPos /\ Consistent zk0 startPos /\
-  length (snd (removeIllegal zk0 startPos (pseudoLegalMoves startPos))) = 20%nat.
+  emptyKeysZero zkDummy /\ WF startC /\ Consistent zkDummy startC /\
+  length (snd (removeIllegal zkDummy startC (pseudoLegalMoves startC))) = 20%nat.
 Proof.
-  split; [exact zk0_emptyKeysZero|]. split; [vm_compute; reflexivity|]. split; [exact startPos_consistent|].
-  vm_compute. reflexivity.
+  split; [intro sq; unfold psKey, zkDummy; cbn; destruct (N.to_nat sq); reflexivity|].
+  split; [vm_compute; reflexivity|]. split.
+  - constructor.
+    1, 2: reflexivity.
+    1: repeat constructor.
+    2-10: vm_compute; reflexivity.
+    intros pc Hpc. assert (pc = 1 \/ pc = 2 \/ pc = 3 \/ pc = 4 \/ pc = 5 \/ pc = 6 \/ pc = 7 \/ pc = 8 \/ pc = 9 \/ pc = 10 \/ pc = 11 \/ pc = 12) as D by lia.
+      destruct D as [->|[->|[->|[->|[->|[->|[->|[->|[->|[->|[->| ->]]]]]]]]]]]; vm_compute; reflexivity.
+  - vm_compute. reflexivity.
 Qed.
